@@ -211,6 +211,10 @@ def apply_query(string, query=None, type=None, fields=None):
     # fields updated by Query is OK
     new_string = sid_resolver.dict_to_sid(new_data, _type)
     if new_string:
+        # keys added by the query were appended: put the fields back in the template's key order
+        __, resolved = sid_resolver.sid_to_dict(new_string, _type)
+        if resolved and resolved.keys() == new_data.keys():
+            new_data = {key: new_data[key] for key in resolved}
         return new_string, _type, new_data
     else:
         raise SpilException(
